@@ -255,3 +255,102 @@ ARGS = ["", "anonymous", "/", "..", "../../etc/passwd", "a b", "  x  ", "Â²", "Ù
 
 def control_line(rng):
     return (rng.choice(VERBS) + rng.choice([" ", " ", "", "  ", "\t"]) + rng.choice(ARGS)).encode("utf-8") + rng.choice([b"\r\n", b"\r\n", b"\n", b"", b"\r"])
+
+
+# ----------------------------------------------------------------------------- well-formed inputs (hypotheses of the exactness theorems)
+# Each generator returns (components, input) where the input satisfies EXACTLY the hypotheses of the corresponding
+# C19_*_exact theorem of coq/Props/C19.v; the harness computes the expected value from the components alone.
+KEY_ALPHA = "abcxyzTYPESIZEModifyUNIX.-_019Ã‰ÃœÃŸÃ©"
+VAL_ALPHA = "abcXYZ0123456789.-_/=:+Ã©æ—¥\t"
+NAME_ALPHA = "abcXYZ019 .-_/>;=\"'Ã©æ—¥æœ¬"
+EOLS = ["\r\n", "\n", "", " \r\n", "\t\r\n", "\r", "\x0b"]
+
+
+def _tok(rng, alpha, lo=1, hi=8):
+    return "".join(rng.choice(alpha) for _ in range(rng.randint(lo, hi)))
+
+
+def wf_name(rng, head_nonspace):
+    while True:
+        s = rng.choice(NAMES) if rng.random() < 0.3 else _tok(rng, NAME_ALPHA, 1, 12)
+        if s and s.rstrip() == s and (not head_nonspace or not s[0].isspace()):
+            return s
+
+
+def wf_mlsx(rng):
+    k = rng.randint(1, 6)
+    facts = []
+    for _ in range(k):
+        key = rng.choice(["type", "Type", "TYPE", "size", "Size", "modify", "unix.mode", "perm", ""]) if rng.random() < 0.6 else _tok(rng, KEY_ALPHA, 0, 8)
+        val = rng.choice(["file", "dir", "cdir", "pdir", "12", "20200101000000", ""]) if rng.random() < 0.6 else _tok(rng, VAL_ALPHA, 0, 10)
+        facts.append((key, val))
+    name, eol = wf_name(rng, False), rng.choice(EOLS)
+    return (facts, name), "".join(f"{k}={v};" for k, v in facts) + " " + name + eol
+
+
+def wf_digits(rng):
+    r = rng.random()
+    if r < 0.7:
+        return str(rng.randrange(0, 70000))
+    if r < 0.9:
+        return "0" * rng.randint(1, 4) + str(rng.randrange(0, 256))
+    if r < 0.97:
+        return "".join(rng.choice("0123456789") for _ in range(rng.choice([12, 20, 40])))
+    # up to the 4300-digit limit of int(); leading zeros keep the VALUE small (the extracted model has unary-ish big-number division)
+    tail = str(rng.randrange(0, 70000))
+    return "0" * (rng.choice([300, 4299, 4300]) - len(tail)) + tail
+
+
+def _text_without(rng, banned, hi=20):
+    alpha = [ch for ch in "abc 019()|,.\"-\r\n\tÃ©æ—¥" if ch not in banned]
+    return "".join(rng.choice(alpha) for _ in range(rng.randint(0, hi)))
+
+
+def wf_epsv(rng):
+    pre, ds, post = _text_without(rng, "("), wf_digits(rng), _text_without(rng, "(")
+    return ds, pre + "(|||" + ds + "|)" + post
+
+
+def wf_pasv(rng):
+    pre, post = _text_without(rng, "("), _text_without(rng, "")
+    ds = [wf_digits(rng) for _ in range(6)]
+    return ds, pre + "(" + ",".join(ds) + ")" + post
+
+
+def wf_dir(rng):
+    d = ""
+    for _ in range(rng.randint(0, 12)):
+        if rng.random() < 0.2 and not d.endswith('"'):
+            d += '"'
+        else:
+            d += rng.choice("abc/ .-_Ã©æ—¥'")
+    if d.endswith('"'):
+        d += "x"
+    pre = _text_without(rng, '"')
+    post = "" if rng.random() < 0.3 else rng.choice("abc .-Ã©") + _text_without(rng, "")
+    return d, pre + '"' + d.replace('"', '""') + '"' + post
+
+
+def wf_unix(rng):
+    t = rng.choice("-dbcps?xÃ©") if rng.random() < 0.9 else rng.choice(" \t-d")
+    m = perm(rng)
+    links, size = wf_digits(rng), wf_digits(rng)
+
+    def ident():
+        while True:
+            s = _tok(rng, "abcROOT019._-\t$Ã©", 1, 8)
+            if not s[0].isspace():
+                return s
+
+    owner, group = ident(), ident()
+    r = rng.random()
+    if r < 0.7:
+        date = ls_date(rng)
+        date = (date + " " * 12)[:12] if len(date) <= 12 else date[:12]
+    else:
+        date = _tok(rng, "JanFeb 0123456789:x", 12, 12)
+    if date[0].isspace():
+        date = "J" + date[1:]
+    name, eol = wf_name(rng, True), rng.choice(EOLS)
+    line = t + m + " " + links + " " + owner + " " + group + " " + size + " " + date + " " + name + eol
+    return (t, m, links, owner, group, size, date, name), line
